@@ -409,10 +409,10 @@ def load_kern(
         unique_durs = np.unique(parser.total_duration_values)
         unique_durs = unique_durs[np.isfinite(unique_durs) & (unique_durs > 0)]
         d_mul = 2
-        while not np.all(np.isclose(unique_durs % 1, 0.0)):
+        while not np.all(np.isclose(unique_durs - np.round(unique_durs), 0.0)):
             unique_durs *= d_mul
             d_mul += 1
-        unique_durs = unique_durs.astype(int)
+        unique_durs = np.round(unique_durs).astype(int)
         divs_pq = np.lcm.reduce(unique_durs)
         divs_pq = np.lcm(divs_pq, 4)
 
